@@ -104,6 +104,17 @@ def check(rep, tier, seed):
         jobs.append((["view"], txtm, "many-axes"))
         jobs.append((["stat", "-s", "sum"], txtm, "many-axes"))
     base = text_spectrum([3, 3], [str(i) for i in range(9)])
+    # options that exclude each other, options given twice, values missing: a usage error, never a crash
+    vcf_c = render_vcf(["a", "b"], [["0/1", "1/1"], ["0/0", "0/1"]])
+    for argv in (["view", "-p", "1,1", "--project-shape", "3,3"], ["view", "--project-shape", "2,2", "-p", "0,0"], ["view", "-m", "0", "-M", "1"], ["view", "-M", "0", "-m", "0"],
+                 ["view", "-p", "1,1", "-p", "1,1"], ["view", "--normalize", "--normalize"], ["view", "-O", "npy", "-O", "text"], ["view", "-o"], ["view", "--precision"],
+                 ["fold", "--fill", "zero", "--fill", "inf"], ["fold", "-s"], ["fold", "--fill", "two"], ["stat"], ["stat", "-s"], ["stat", "-s", "sum", "-d", "ab"], ["stat", "-s", "sum", "-d", ""],
+                 ["stat", "-s", "sum", "-p", "1,2"], ["stat", "-s", "sum,s", "-p", "1,2,3"], ["stat", "-s", "nosuch"], ["view", "--nosuch"], ["nosuch"]):
+        jobs.append((argv, base, "option-conflicts"))
+    for argv in (["create", "-p", "1", "--project-shape", "3"], ["create", "-s", "a", "-S", "/dev/null"], ["create", "-p", "1", "--strict"], ["create", "--strict", "--project-shape", "3"],
+                 ["create", "--threads", "0"], ["create", "--threads", "-1"], ["create", "--threads", "x"], ["create", "-t"], ["create", "--precision", "-1"], ["create", "-s", "a", "-s", "b"],
+                 ["create", "--strict", "--strict"]):
+        jobs.append((argv, vcf_c, "option-conflicts"))
     for p in ("0", "17", "65535", "65536", "4294967296", "18446744073709551615"):
         jobs.append((["view", "--precision", p], base, "precision"))
         jobs.append((["fold", "--precision", p], base, "precision"))
